@@ -100,9 +100,19 @@ func replay(args []string) int {
 			return fmt.Errorf("bad behaviour: %v", err)
 		}
 		n++
-		res := runProgram(&p, evalrt.StyleFor(rng), line)
+		style := evalrt.StyleFor(rng)
+		res := runProgram(&p, style, line)
 		res.ID = fmt.Sprintf("%s%d", *prefix, n)
 		out.Write(res)
+		// the same program once more as a whole, inside a subroutine frame (plain and functional), for the
+		// programs with nesting; only if the step-wise replay agreed (otherwise the difference is already reported)
+		if len(res.Mismatch) == 0 && res.Validated && p.Fin != nil && (p.Tag == "sim" || p.Tag == "pair" || p.Tag == "if-nested" || strings.HasPrefix(p.Tag, "canary")) {
+			for _, functional := range []bool{false, true} {
+				w := runWhole(&p, style, functional, line)
+				w.ID = fmt.Sprintf("%s%d_whole_%v", *prefix, n, functional)
+				out.Write(w)
+			}
+		}
 		return nil
 	})
 	if err != nil {
@@ -206,5 +216,91 @@ func runProgram(p *evalrt.Program, style evalrt.Style, raw []byte) hx.CaseResult
 		}
 	}
 	res.Observed = observed
+	return res
+}
+
+// runWhole executes the program as ONE subroutine body (its own frame of locals and re.group), followed by statements
+// that export every pooled name to a header; the headers are compared with the final values TLC computed.
+func runWhole(p *evalrt.Program, style evalrt.Style, functional bool, raw []byte) hx.CaseResult {
+	res := hx.CaseResult{Validated: true}
+	mode := "sub"
+	if functional {
+		mode = "functional-sub"
+	}
+	r := evalrt.Renderer{Scope: p.Scope, Style: style}
+	last := p.Exp[len(p.Exp)-1]
+	if last.St != "ok" && last.St != "err" {
+		res.Validated = false // the reference stops predicting inside this program: nothing to compare as a whole
+		res.Class = map[string]any{"tag": p.Tag, "mode": mode, "skipped": true}
+		return res
+	}
+	var body strings.Builder
+	for i, s := range p.Stmts {
+		if i >= len(p.Exp) {
+			break
+		}
+		body.WriteString(r.Stmt(s, "  "))
+	}
+	names := []string{}
+	for _, n := range evalrt.PoolNames {
+		if v, ok := p.Fin[n]; ok && v.T == "STR" {
+			names = append(names, n)
+			fmt.Fprintf(&body, "  set %s = %s;\n", evalrt.ExportName(n), evalrt.ConcreteName(p.Scope, n))
+		}
+	}
+	src := "sub whole {\n" + body.String() + "}\n"
+	if functional {
+		src = "sub whole BOOL {\n" + body.String() + "  return true;\n}\n"
+	}
+	h := sha1.Sum([]byte(mode + p.Scope + src))
+	res.Key = "whole:" + hex.EncodeToString(h[:6])
+	input := map[string]any{"scope": p.Scope, "tag": p.Tag, "mode": mode, "vcl": src}
+	res.Input = input
+	res.Class = map[string]any{"tag": p.Tag, "scope": p.Scope, "mode": mode,
+		"empty_regex": false, "kind": "whole"}
+	for _, s := range p.Stmts {
+		if stmtHas(s, func(e *evalrt.Expr) bool { return e.K == "match" && e.Rx != nil && len(e.Rx.Lit) == 0 }) {
+			res.Class["empty_regex"] = true
+		}
+	}
+	fail := func(item map[string]any) {
+		res.Mismatch = append(res.Mismatch, item)
+		input["beh"] = json.RawMessage(raw)
+	}
+	sub, perr := evalrt.ParseSubroutine(src)
+	if perr != nil {
+		res.Drift = append(res.Drift, map[string]any{"obs": "parse", "error": perr.Error()})
+		res.Validated = false
+		return res
+	}
+	m, err := evalrt.NewMachine(p.Scope, "")
+	if err != nil {
+		res.Drift = append(res.Drift, map[string]any{"obs": "init", "error": err.Error()})
+		res.Validated = false
+		return res
+	}
+	o := m.RunSub(sub, functional)
+	res.Observed = map[string]any{"outcome": o.Kind, "msg": o.Msg}
+	if last.St == "err" {
+		if o.Kind != "error" {
+			fail(map[string]any{"obs": "status", "expected": "error", "got": o.Kind, "msg": o.Msg})
+		}
+		return res
+	}
+	if o.Kind != "ok" {
+		fail(map[string]any{"obs": "status", "expected": "ok", "got": o.Kind, "msg": o.Msg})
+		return res
+	}
+	for _, n := range names {
+		got := m.ReadConcrete(evalrt.ExportName(n))
+		if !evalrt.Same(p.Fin[n], got) {
+			fail(map[string]any{"obs": "value", "name": n, "expected": evalrt.ShowVal(p.Fin[n]), "got": evalrt.ShowGot(got)})
+		}
+	}
+	if logs := m.Logs(); len(logs) != last.NLogs {
+		fail(map[string]any{"obs": "nlogs", "expected": last.NLogs, "got": len(logs)})
+	} else if last.NLogs > 0 && evalrt.NormText(logs[len(logs)-1]) != evalrt.NormText(strings.Join(last.LastLog, "")) {
+		fail(map[string]any{"obs": "log", "expected": strings.Join(last.LastLog, ""), "got": logs[len(logs)-1]})
+	}
 	return res
 }
